@@ -175,6 +175,9 @@ def spice(rng, prog, ci, mfs):
         elif r < 0.34:
             # a counter created by incr/decr whose first value is too big for an INTEGER column: it is pickled, and with a small
             # threshold it goes to a file
+            if rng.random() < 0.5:
+                # ... or re-created by it over an item that has expired
+                out.append({'op': 'set', 'k': 'huge-%d' % i, 'v': 1, 'expire': 0, 'retry': True})
             out.append({'op': rng.choice(('incr', 'decr')), 'k': 'huge-%d' % i, 'default': 2 ** 70 + i, 'delta': 1, 'retry': True})
         out.append(op)
     return out
